@@ -16,6 +16,7 @@ from ..cfg import CFG
 from ..interp import Closure, Obj, Raised, Sym, Undecided
 from ..loader import AnalysisError
 from ..poly import NotPolynomial
+from .exchange import ExchMixin
 
 
 def T(i):
@@ -114,9 +115,39 @@ class BufInterp(FinamInterp):
         return super().binop(op, left, right, node)
 
 
-def _adapter_obj(repo, cname, n, kinds=None, extra=None):
+PREV = "<previous-pull time>"  # role key in `extra`: translated to the attribute the class really uses
+
+
+def prev_attr(repo):
+    """Name of the attribute in which the integration adapters keep the time of the previous
+    pull: discovered behaviourally - it is the only field of a freshly constructed adapter
+    that the first notification sets to the notification time."""
+    cached = getattr(repo, "_prev_attr", None)
+    if cached is not None:
+        return cached
+    c = repo.cls("SumOverTime")
+    o = _adapter_obj(repo, "SumOverTime", 0)
+    before = dict(o.fields)
+    tn = Sym("tn")
+    order = Order()
+    order.name(tn, "tn", 5)
+    it = BufInterp(repo, order)
+    f = repo.resolve(c, "_source_updated", "method")
+    it.run(f, [tn], self_obj=o)
+    names = [k for k, v in o.fields.items() if v == tn and before.get(k) is None]
+    if len(names) != 1:
+        raise AnalysisError(f"cannot identify the previous-pull attribute of the integration adapters (candidates {names})")
+    repo._prev_attr = names[0]
+    return names[0]
+
+
+def _adapter_obj(repo, cname, n, kinds=None, extra=None, ctor=None):
+    """Abstract adapter: attributes seeded from the real constructors (with `ctor` as constructor
+    arguments), then the scenario's buffer and the stubs of the link ends."""
+    from ..absbase import seed_from_init
     c = repo.cls(cname)
     o = Obj(cls=c, label=cname)
+    seed_from_init(FinamInterp(repo), c, o, ctor or {})
     kinds = kinds or ["ram"] * n
     o.fields.update(
         data=[(T(i), P(i, kinds[i])) for i in range(n)],
@@ -128,6 +159,9 @@ def _adapter_obj(repo, cname, n, kinds=None, extra=None):
         _output_info=Obj(label="out_info", fields={"grid": Sym("grid"), "units": Sym("u_out")}),
     )
     if extra:
+        extra = dict(extra)
+        if PREV in extra:
+            o.fields[prev_attr(repo)] = extra.pop(PREV)
         o.fields.update(extra)
     return o
 
@@ -544,18 +578,55 @@ def r04_cmp(repo, sink):
         pass
     sink.check(worst is None, "R04", "check_time-table", f,
                ok=f"{cases} cases: refused iff strictly outside the inclusive range", bad=worst or "")
-    # both _get_data implementations pass (oldest, newest) of their own buffer
-    for cname in ("TimeCachingAdapter", "TimeIntegrationAdapter"):
+    # both _get_data implementations check the request against (oldest, newest) of their own buffer:
+    # observed in an abstract run (the arguments check_time receives), independent of how the call is written
+    for cname, rep in (("TimeCachingAdapter", "LinearTime"), ("TimeIntegrationAdapter", "AvgOverTime")):
         g = repo.own(cname, "_get_data")
-        cts = [c for c in calls(g.node, "check_time")]
-        ok = False
-        for c in cts:
-            if len(c.args) >= 3 and isinstance(c.args[2], ast.Tuple) and len(c.args[2].elts) == 2:
-                a, b = (U(x).replace(" ", "") for x in c.args[2].elts)
-                ok = a == "self.data[0][0]" and b == "self.data[-1][0]" and U(c.args[1]) == g.params[0]
+        o = Order()
+        for i in range(3):
+            o.name(T(i), f"t{i}", 4 * i)
+        o.name(Q, "q", 6)
+        it = _RangeProbe(repo, o)
+        obj = _adapter_obj(repo, rep, 3)
+        try:
+            it.run(g, [Q, None], self_obj=obj)
+        except _Seen:
+            pass
+        except Raised as r:
+            sink.bad("R04", f"range-args:{cname}._get_data", g, f"a request inside the buffered range raises {r.name} before the range is checked")
+            continue
+        except (AnalysisError, Undecided) as exc:
+            sink.unknown("R04", f"range-args:{cname}._get_data", g, f"_get_data outside vocabulary before the range check: {exc}")
+            continue
+        if it.seen is None:
+            sink.bad("R04", f"range-args:{cname}._get_data", g, "check_time is never reached for a request inside the buffered range")
+            continue
+        tm, rng = it.seen
+        ok = tm == Q and isinstance(rng, (tuple, list)) and len(rng) == 2 and rng[0] == T(0) and rng[1] == T(2)
         sink.check(ok, "R04", f"range-args:{cname}._get_data", g,
                    ok="range check uses (oldest, newest) buffer times and the request time",
-                   bad="check_time is not called with (self.data[0][0], self.data[-1][0]) and the request time")
+                   bad=f"check_time receives time {tm!r} and range {rng!r}; must be the request time and (oldest, newest) buffered time")
+
+
+class _Seen(Exception):
+    pass
+
+
+class _RangeProbe(BufInterp):
+    """Stops at the first call of check_time and records its (time, range) arguments."""
+
+    def __init__(self, repo, order):
+        super().__init__(repo, order)
+        self.seen = None
+
+    def call_hook(self, fv, args, kwargs, node, mod):
+        if isinstance(fv, Closure) and getattr(fv.func, "name", "") == "check_time":
+            names = fv.func.params
+            bound = dict(zip(names, args))
+            bound.update(kwargs)
+            self.seen = (bound.get(names[1]), bound.get(names[2]))
+            raise _Seen()
+        return super().call_hook(fv, args, kwargs, node, mod)
 
 
 # =========================================================================== R26
@@ -567,7 +638,7 @@ def r26_buffer(repo, sink):
         o.name(tn, "tn", 5)
         it = BufInterp(repo, o)
         obj = _adapter_obj(repo, "NextTime" if cname == "TimeCachingAdapter" else "SumOverTime", 0,
-                           extra={"_prev_time": None})
+                           extra={PREV: None})
         try:
             it.run(f, [tn], self_obj=obj)
         except Raised as r:
@@ -580,15 +651,15 @@ def r26_buffer(repo, sink):
             why = f"buffer after one notification is {data!r}, expected [(time, _pack(strip_time(pull_data(time, self))))]"
         elif it.pulls != [(tn, obj)]:
             why = f"pulls {it.pulls!r}: the notification time and `self` as target are required"
-        elif cname == "TimeIntegrationAdapter" and obj.fields.get("_prev_time") != tn:
-            why = "first notification must initialise _prev_time"
+        elif cname == "TimeIntegrationAdapter" and obj.fields.get(prev_attr(repo)) != tn:
+            why = "first notification must initialise the previous-pull time"
         sink.check(why is None, "R26", f"notify:{cname}", f,
                    ok="a notification pulls at the notification time with target self, strips the time axis, packs and appends",
                    bad=why or "")
         # non-datetime notification is refused
         it2 = BufInterp(repo, Order())
         try:
-            it2.run(f, [Sym("nonsense")], self_obj=_adapter_obj(repo, "NextTime", 0, extra={"_prev_time": None}))
+            it2.run(f, [Sym("nonsense")], self_obj=_adapter_obj(repo, "NextTime", 0, extra={PREV: None}))
             sink.bad("R26", f"notify-type:{cname}", f, "a non-datetime notification is buffered")
         except Raised as r:
             sink.check(r.name == "FinamTimeError", "R26", f"notify-type:{cname}", f, ok="non-datetime notification raises FinamTimeError", bad=f"raises {r.name}")
@@ -600,17 +671,17 @@ def r26_buffer(repo, sink):
     tn = Sym("tn")
     o.name(tn, "tn", 5)
     it = BufInterp(repo, o)
-    obj = _adapter_obj(repo, "SumOverTime", 1, extra={"_prev_time": T(0)})
+    obj = _adapter_obj(repo, "SumOverTime", 1, extra={PREV: T(0)})
     o.name(T(0), "T0", 0)
     it.run(f, [tn], self_obj=obj)
-    sink.check(obj.fields["_prev_time"] == T(0), "R26", "notify:prev-time-kept", f,
-               ok="later notifications leave _prev_time alone", bad="a notification overwrites _prev_time (integration interval lost)")
+    sink.check(obj.fields[prev_attr(repo)] == T(0), "R26", "notify:prev-time-kept", f,
+               ok="later notifications leave the previous-pull time alone", bad="a notification overwrites the previous-pull time (integration interval lost)")
     # empty buffer -> FinamNoDataError in both _get_data
     for cname, rep in (("TimeCachingAdapter", "NextTime"), ("TimeIntegrationAdapter", "SumOverTime")):
         g = repo.own(cname, "_get_data")
         it = BufInterp(repo, make_order(0, {Q: ("below",)}))
         try:
-            it.run(g, [Q, None], self_obj=_adapter_obj(repo, rep, 0, extra={"_prev_time": None}))
+            it.run(g, [Q, None], self_obj=_adapter_obj(repo, rep, 0, extra={PREV: None}))
             sink.bad("R26", f"empty:{cname}", g, "empty buffer does not raise FinamNoDataError")
         except Raised as r:
             sink.check(r.name == "FinamNoDataError", "R26", f"empty:{cname}", g, ok="empty buffer raises FinamNoDataError (retry later)",
@@ -658,10 +729,9 @@ def r39_static(repo, sink):
     i = repo.cls("Input")
     pd = repo.resolve(i, "pull_data", "method")
     it = _PushInterp(repo, make_order(0, {Q: ("below",)}))
-    src = Obj(label="source")
-    inp = Obj(cls=i, label="Input")
-    inp.fields.update(_static=True, _cached_data=None, _source=src, logger=Logger(label="logger"), name="in", _transform=None,
-                      _input_info=Obj(label="info", fields={"units": Sym("u")}))
+    from .exchange import linked_input
+    src = Obj(label="source", markers={"IOutput", "IAdapter"}, fields={"logger_name": "src", "name": "src"})
+    inp, _s, _rq, _dl = linked_input(repo, it, static=True, same_grid=True, src=src)
     r1 = it.run(pd, [Q], self_obj=inp)
     r2 = it.run(pd, [None], self_obj=inp)
     sink.check(len(it.fetches) == 1 and r1 == r2 and isinstance(r1, Sym) and r1.op == "converted", "R39", "static-input-cache", pd,
@@ -669,7 +739,7 @@ def r39_static(repo, sink):
                bad=f"static input fetched {len(it.fetches)} time(s); results {r1!r} / {r2!r} (must be the converted and checked value both times)")
 
 
-class _PushInterp(BufInterp):
+class _PushInterp(ExchMixin, BufInterp):
     def __init__(self, repo, order):
         super().__init__(repo, order)
         self.fetches = []
@@ -769,9 +839,11 @@ def r27c_constructors(repo, sink):
                     sink.unknown("R27", f"constructor:{cname}.{param}", init, f"constructor outside vocabulary: {exc}")
                     worst = "skip"
                 break
-            got = next((o.fields[a] for a in attrs if a in o.fields), "<unset>")
-            same = (got is val) or (got == val and type(got) is type(val))
-            if not same:
+            # whichever attribute the class uses: the configured value itself must be kept in one of them
+            new = {k: v for k, v in o.fields.items() if k != "logger"}
+            kept = any((v is val) or (v == val and type(v) is type(val)) for v in new.values())
+            if not kept:
+                got = next((new[a] for a in attrs if a in new), "<unset>")
                 worst = worst or f"{cname}({param}={val!r}) stores {got!r}"
         if worst == "skip":
             continue
